@@ -466,4 +466,7 @@ def run(ck, tier):
     ck.assume('value ranges (e.g. addresses above 65535 raising struct.error) are not decided')
     from .. import ownership as _own
     ck.guard(_own.rule_instance_owned, ck, cx, 'R10', _own.DECODERS, 'a function registered on one decoder is decoded by every decoder in the process: a spec-conformant PDU no longer decodes to the message type of the specification', 4)
+    from .. import ownership as _own2
+    ck.rule('R11', 'no unsound memoisation (a caching decorator on a method, or on a function that returns a mutable container) in the modules this property rests on')
+    ck.guard(_own2.rule_no_unsafe_memo, ck, cx, 'R11', ('pymodbus.utilities', 'pymodbus.pdu', 'pymodbus.factory', 'pymodbus.bit_read_message', 'pymodbus.bit_write_message', 'pymodbus.register_read_message', 'pymodbus.register_write_message', 'pymodbus.diag_message', 'pymodbus.file_message', 'pymodbus.other_message', 'pymodbus.mei_message'), 'a message is encoded / decoded from a stale or shared value')
     return cx.idx
